@@ -475,12 +475,33 @@ pub fn run(c: &Case) -> Outcome {
     Ok(obs)
 }
 
+/// scope of the bounded-exhaustive sub-check: every labelled digraph on 1..=4 nodes and every
+/// labelled undirected graph on 1..=5 nodes (6 in the thorough tier), loops included
+fn scope(tier: Tier) -> (usize, usize) {
+    if tier == Tier::Quick {
+        (4, 5)
+    } else {
+        (4, 6)
+    }
+}
+const ENUM_P: u64 = 8 * 4;
+fn enum_count(tier: Tier) -> u64 {
+    let (d, u) = scope(tier);
+    small_graph_count(d, u) * ENUM_P
+}
+fn enum_make(tier: Tier, i: u64) -> Case {
+    let (d, u) = scope(tier);
+    let (dir, n, mask) = small_graph(i / ENUM_P, d, u).expect("index within the scope");
+    let p = i % ENUM_P;
+    Case { g: raw_explicit(dir, n, mask, 0), enc: (p % 8) as u8, salt: (i % 251) as u8, start: sel_for((p / 8) as usize % n, n) }
+}
+
 pub fn property() -> Property {
     Property {
         id: "C09",
-        rule: "random directed/undirected multigraphs with loops (0..=10 nodes quick; DAG, cycle, forest, multi-component, bipartite shapes) in Graph, StableGraph/MatrixGraph with vacancies, GraphMap, Csr, adj::List as the trait bounds allow; every listed function compared with Warshall closure / mutual-reachability classes / forest edge count / propagation 2-colouring; DfsSpace and TarjanScc reused across calls; non-trivial = >=2 SCCs with one of size >=2 (directed) or >=2 components (undirected); distinct by case fingerprint",
+        rule: "random directed/undirected multigraphs with loops (0..=10 nodes quick; DAG, cycle, forest, multi-component, bipartite shapes) in Graph, StableGraph/MatrixGraph with vacancies, GraphMap, Csr, adj::List as the trait bounds allow; every listed function compared with Warshall closure / mutual-reachability classes / forest edge count / propagation 2-colouring; DfsSpace and TarjanScc reused across calls; non-trivial = >=2 SCCs with one of size >=2 (directed) or >=2 components (undirected); distinct by case fingerprint; bounded-exhaustive sub-check: every labelled digraph on 1..=4 nodes and undirected graph on 1..=5 nodes (6 thorough), loops included, x 8 encodings x start nodes",
         assumptions: &["is_bipartite_undirected and toposort/is_cyclic_directed are exercised only on undirected resp. directed graphs (their domain)"],
         both_profiles: false,
-        subs: vec![sub("connectivity/all", 4_000_000, 60_000_000, strategy, run)],
+        subs: vec![sub("connectivity/all", 4_000_000, 60_000_000, strategy, run), sub_enum("connectivity/all-small-graphs", enum_count, enum_make, run)],
     }
 }
